@@ -153,6 +153,22 @@ fn main() {
             }
             std::process::exit(0);
         }
+        #[cfg(feature = "sched")]
+        "sched" => {
+            if args.len() < 4 {
+                usage();
+            }
+            std::process::exit(sched::main_sched(&args[2].to_uppercase(), &args[3]));
+        }
+        #[cfg(feature = "sched")]
+        "sched-replay" => {
+            let text = std::fs::read_to_string(&args[2]).unwrap_or_default();
+            let v: Value = serde_json::from_str(&text).unwrap_or(Value::Null);
+            std::process::exit(sched::replay_failure(&v));
+        }
+        "conf-battery" => {
+            std::process::exit(props::conf::battery_main(args.get(2).map_or("system", String::as_str)));
+        }
         "list" => {
             for id in props::ALL {
                 println!("{id}");
